@@ -131,20 +131,19 @@ def velocities(rng, hg, ht, n):
     return out[:n]
 
 
-def general_state(hg, spy):
-    """'ok', 'unconverged' (self.success False: C02 unconverged-matching-returned) or
+def general_state(hg, spy, vw):
+    """'ok', 'unconverged' (self.success False: C02 unconverged-matching-returned),
     'accepted' (the last hybr solve reports failure but sum(fun^2) < 1e-6 lets it through:
-    C02 slow-wall-unconverged-accepted / unconverged-accepted-absolute-threshold)"""
-    _, sol = spy.last("root", "matching")
-    if sol is None:
-        return "ok"
-    if not hg.success:
-        return "unconverged"
-    return "ok" if sol.success else "accepted"
+    C02 slow-wall-unconverged-accepted / unconverged-accepted-absolute-threshold) -- both
+    only with the recorded MECHANISM (the solve was started from the code's own
+    template-based guess, see C02.expected_guess) -- or 'foreign': the solve failed for
+    another reason, which is NOT a recorded class"""
+    return base.solve_state(base.solve_info(hg, spy, vw))
 
 
 GEN_KEY = {"unconverged": "general-unconverged-matching",
-           "accepted": "general-unconverged-accepted"}
+           "accepted": "general-unconverged-accepted",
+           "foreign": "general-unconverged-foreign-cause"}
 
 
 def compare(ctx, case, stats, rng, n_vw, with_lte=True, with_kappa=True, vws=None,
@@ -193,7 +192,7 @@ def compare(ctx, case, stats, rng, n_vw, with_lte=True, with_kappa=True, vws=Non
         try:
             with base.Spy(hg) as spy:
                 bg = hg.findHydroBoundaries(vw)
-            gstate = "ok" if vw > hg.vJ else general_state(hg, spy)
+            gstate = "ok" if vw > hg.vJ else general_state(hg, spy, vw)
             mg = spy.matchings[-1] if spy.matchings else None
             mt = ht.findMatching(vw)
             bt = ht.findHydroBoundaries(vw)
@@ -326,7 +325,7 @@ def compare(ctx, case, stats, rng, n_vw, with_lte=True, with_kappa=True, vws=Non
                         with base.Spy(hg) as lspy:
                             vp, vm, Tp, Tm = (float(x) for x in hg.matchDeflagOrHyb(lg))
                         e1, e2, m1, m2 = base.fluxes(th, vp, vm, Tp, Tm)
-                        gen_ok = general_state(hg, lspy) == "ok" and rel(e1, e2) < 1e-6 and \
+                        gen_ok = general_state(hg, lspy, lg) == "ok" and rel(e1, e2) < 1e-6 and \
                             rel(m1, m2) < 1e-6 and abs(Tp * math.sqrt(gammaSq(vp)) / (
                                 Tm * math.sqrt(gammaSq(vm))) - 1) < 1e-6 and abs(
                                 hg.solveHydroShock(lg, vp, Tp) / Tn - 1) < 100 * dT
@@ -363,7 +362,7 @@ def compare(ctx, case, stats, rng, n_vw, with_lte=True, with_kappa=True, vws=Non
             try:
                 with base.Spy(hg) as kspy:
                     kg = float(hg.efficiencyFactor(vw))
-                kstate = "ok" if vw > hg.vJ else general_state(hg, kspy)
+                kstate = "ok" if vw > hg.vJ else general_state(hg, kspy, vw)
                 gsucc = kstate == "ok"
                 kt = float(ht.efficiencyFactor(vw))
             except Exception as ex:
@@ -398,7 +397,8 @@ def compare(ctx, case, stats, rng, n_vw, with_lte=True, with_kappa=True, vws=Non
                     vw, kg, "" if gsucc else " (from an UNCONVERGED matching)", kt),
                     SMALL if small_alpha else {
                         "ok": "kappa", "unconverged": "kappa-general-unconverged-matching",
-                        "accepted": "general-unconverged-accepted"}[kstate],
+                        "accepted": "general-unconverged-accepted",
+                        "foreign": "general-unconverged-foreign-cause"}[kstate],
                     vw=vw, quantity="kappa", general_state=kstate)
                 continue
             # the same comparison with both classes at tight tolerances
@@ -407,7 +407,7 @@ def compare(ctx, case, stats, rng, n_vw, with_lte=True, with_kappa=True, vws=Non
                     tight = build(case, TIGHT, TIGHT)
                 with base.Spy(tight[1]) as kspy:
                     kg = float(tight[1].efficiencyFactor(vw))
-                kstate = "ok" if vw > hg.vJ else general_state(tight[1], kspy)
+                kstate = "ok" if vw > hg.vJ else general_state(tight[1], kspy, vw)
                 gsucc = kstate == "ok"
                 kt = float(tight[2].efficiencyFactor(vw))
             except Exception as ex:
@@ -428,7 +428,8 @@ def compare(ctx, case, stats, rng, n_vw, with_lte=True, with_kappa=True, vws=Non
                      SMALL if small_alpha else {
                          "ok": "kappa-tight",
                          "unconverged": "kappa-general-unconverged-matching",
-                         "accepted": "general-unconverged-accepted"}[kstate],
+                         "accepted": "general-unconverged-accepted",
+                         "foreign": "general-unconverged-foreign-cause"}[kstate],
                      vw=vw, quantity="kappa", rtol=TIGHT, atol=TIGHT, general_state=kstate)
 
 
